@@ -764,10 +764,19 @@ func (r *renderer) float(f float64) {
 	r.tok(s)
 }
 
+func printableASCII(s string) bool {
+	for i := 0; i < len(s); i++ {
+		if s[i] < 0x20 || s[i] >= 0x7f {
+			return false
+		}
+	}
+	return true
+}
+
 func (r *renderer) str(s string) {
 	// long bracket form: only for strings without CR/LF (to stay on one line
 	// and away from newline normalisation)
-	if !strings.ContainsAny(s, "\r\n") && r.choose(6) == 1 {
+	if printableASCII(s) && r.choose(6) == 1 {
 		level := 0
 		for strings.Contains(s, "]"+strings.Repeat("=", level)+"]") || strings.HasSuffix(s, "]"+strings.Repeat("=", level)) {
 			level++
